@@ -15,10 +15,11 @@
 EXTENDS Integers, Sequences, FiniteSets, TLC
 FsMut  == {"Mkdir", "Create", "OpenRW", "OpenAppend", "OpenTrunc", "WriteOnROHandle", "Rename", "Remove",
            "SetLabel", "Chmod", "Chown", "Chtimes", "Symlink"}
-FsRead == {"ReadDirRoot", "ReadDirSub", "Stat", "ReadFile", "ReadLink", "Label"}
+FsRead == {"ReadDirRoot", "ReadDirSub", "Stat", "ReadFile", "ReadEmpty", "ReadLink", "Label"}
 DkMut  == {"Partition", "WritePartitionContents", "CreateFilesystem", "CreateExt4", "CreateFat16"}   \* CreateFilesystem: FAT32
 DkRead == {"GetPartitionTable", "ReadPartitionContents", "GetFilesystemAndList"}
-FsObjs == {"fat12", "fat16", "fat32", "ext4", "iso", "squashfs"}
+\* fat16x: a FAT16 volume on which an empty file has the form other tools give it (size 0, first cluster 0)
+FsObjs == {"fat12", "fat16", "fat32", "fat16x", "ext4", "iso", "squashfs"}
 \* gptbad: the primary GPT array fails its CRC, the backup is intact (reads must not "repair" it)
 \* mbrshort: the image is shorter than the table says (partition 2 reaches past its end): nothing may grow it
 DkObjs == {"gpt", "mbr", "gptbad", "mbrshort"}
